@@ -185,6 +185,9 @@ pub fn minimise(prop: Prop, trace: &Trace, orig: &Violation, extra_keep: &dyn Fn
 		}
 		// 2. shrink bursts: drop ops, simplify lifecycles and arguments
 		for si in 0..best.steps.len() {
+			if si >= best.steps.len() {
+				break; // an accepted candidate truncated the trace
+			}
 			match best.steps[si].clone() {
 				Step::PathBurst(ops) => {
 					let mut ops = ops;
